@@ -356,7 +356,7 @@ func (m *Machine) topReturn(st *State, fr *Frame, rets []Value) {
 					g = m.ctx.Or(m.ctx.Eq(x.Ref, m.ctx.Int(0)), m.ctx.ILt(base, x.Ref))
 				}
 			case *Slice:
-				g = m.ctx.And(m.ctx.ILt(base, x.Arr), m.ctx.Eq(x.Off, m.ts.IdxConst(0)))
+				g = m.ctx.Or(m.ctx.Eq(x.Len, m.ts.IdxConst(0)), m.ctx.And(m.ctx.ILt(base, x.Arr), m.ctx.Eq(x.Off, m.ts.IdxConst(0))))
 			}
 			if g != nil {
 				m.recordOrOblige(st, fr, "post", fmt.Sprintf("freshresult.%d", i), g, m.allTags(), "freshresult: result is nil or newly allocated (callers rely on it)")
@@ -539,12 +539,15 @@ func (m *Machine) applyContract(st *State, fr *Frame, instr ssa.Instruction, fc 
 		evArgs = append(append([]Value{}, args...), fval)
 	}
 	callEv := m.newEvent(st, name, evArgs)
+	// the callee may have allocated objects we do not see: reserve their identifiers first, so that the
+	// heap after the call (havoc below) is younger than they are
+	st.opaqueNfresh = m.ctx.nfresh
+	m.ctx.nfresh += 16
 	// effects
 	if !fc.Pure && !st.pure {
 		m.contractHavoc(st, fr, fc, name, bind, fn, args)
 	}
-	// results: the callee may have allocated objects we do not see, and these may retain its arguments
-	m.ctx.nfresh += 16
+	// results: these may retain the callee's arguments
 	retains := !fc.Pure && len(fc.Assigns) > 0
 	for i := 0; i < sig.Results().Len(); i++ {
 		if m.typeHasRefs(sig.Results().At(i).Type(), 0) {
@@ -1000,9 +1003,26 @@ func (m *Machine) enterLoopHeader(st *State, fr *Frame, from, header *ssa.BasicB
 		return true
 	}
 	if spec == nil || (spec.Unroll == 0 && len(spec.Invariants) == 0 && len(spec.Iters) == 0 && len(spec.Exits) == 0) {
-		m.problem("loop %d of %s has neither invariant nor unroll bound", ord, relName(fr.fn))
-		st.dead = true
-		return false
+		if m.P.Contracts.Funcs[relName(fr.fn)] != nil {
+			m.problem("loop %d of %s has neither invariant nor unroll bound", ord, relName(fr.fn))
+			st.dead = true
+			return false
+		}
+		// a helper without a contract that is being inlined (typically one that a refactoring has just
+		// extracted): unroll it up to a default bound. Exceeding the bound decides nothing (the check
+		// reports UNDECIDED for it), it is never a violation.
+		const defaultUnroll = 8
+		if !isBack {
+			fr.loopHit[header.Index] = 0
+		}
+		fr.loopHit[header.Index]++
+		if fr.loopHit[header.Index] > defaultUnroll+1 {
+			m.recordObl(st, fr, "unwinddefault", fmt.Sprintf("loop%d", ord), m.ctx.F, m.safeTagsFor(fr.fn),
+				fmt.Sprintf("loop %d of the uncontracted helper %s runs at most %d iterations (default unrolling; undecided if not)", ord, relName(fr.fn), defaultUnroll), false)
+			st.dead = true
+			return false
+		}
+		return true
 	}
 	if spec.Unroll > 0 {
 		if !isBack {
@@ -1185,6 +1205,7 @@ func (m *Machine) enterLoopHeader(st *State, fr *Frame, from, header *ssa.BasicB
 	m.timePasses(st)
 	cut.heapAt = cloneHeap(st.heap)
 	cut.freshAt = len(st.fresh)
+	cut.nfreshAt = m.ctx.nfresh
 	cut.locks = map[string]int{}
 	for k, v := range st.locks {
 		cut.locks[k] = v
